@@ -245,6 +245,39 @@ func (fc *FuncCtx) theoryCall(st *State, bind string, fn *types.Func, recv *Val,
 			return val(gZero())
 		}
 		return Val{}, false
+	case "curveparams": // ShortWeierstrassCurveParams: out = f(in) with curve constants a, b, 3b (ghost constants cpA, cpB, cpB3)
+		if len(args) == 2 {
+			var ol *Loc
+			if args[0].Loc != nil {
+				ol = args[0].Loc
+			} else {
+				ol = fc.derefLoc(st, args[0], pos)
+			}
+			in := deref(args[1])
+			r := ringOps{ol.Sort}
+			cst := func(n string) *Term {
+				if ol.Sort.Kind == "Int" {
+					return Const("g$"+n, SInt)
+				}
+				return Const("g$"+n, SV)
+			}
+			var t *Term
+			switch name {
+			case "MulByA":
+				t = r.mul(cst("cpA"), in)
+			case "MulBy3B":
+				t = r.mul(cst("cpB3"), in)
+			case "AddA":
+				t = r.add(in, cst("cpA"))
+			case "AddB":
+				t = r.add(in, cst("cpB"))
+			}
+			if t != nil {
+				fc.writeLoc(st, ol, fc.nameTerm(st, "t", t))
+				return Val{}, true
+			}
+		}
+		return Val{}, false
 	case "fieldS", "ringS":
 		s := fc.sortOf(resT)
 		r := ringOps{s}
